@@ -67,6 +67,7 @@ type scanRegion struct {
 	nPaths   int
 	err      string
 	targets  map[*scanCut]bool
+	usesStack bool // the region reads the call stack (fret / ret): machine-state candidates need the quantified stack invariant
 }
 
 type scanEngine struct {
@@ -223,6 +224,11 @@ func newScanEngine(w *World, props []string) (*scanEngine, error) {
 			}
 		}
 	}
+	for _, p := range se.localPtr {
+		_ = p.Ref.String() // shared between the parallel region generators: fill the render cache now
+	}
+	_ = tTrue.String()
+	_ = tFalse.String()
 	se.findEntryStates()
 	return se, nil
 }
@@ -291,6 +297,7 @@ func (w *World) scanRestStates() []int64 {
 	}
 	// walk the comparison chain below _test_eof: every `cs == k` test names a state with an eof action
 	seen := map[*ssa.BasicBlock]bool{}
+	var tag ssa.Value // the loaded lex.cs the switch dispatches on (first comparison met)
 	var walk func(b *ssa.BasicBlock)
 	walk = func(b *ssa.BasicBlock) {
 		if seen[b] || (isLabelName(b.Comment) && b != eofBlock) {
@@ -302,7 +309,12 @@ func (w *World) scanRestStates() []int64 {
 				if c, ok := bo.Y.(*ssa.Const); ok && c.Value != nil {
 					if v, exact := constant.Int64Val(constant.ToInt(c.Value)); exact {
 						if _, isLoad := bo.X.(*ssa.UnOp); isLoad {
-							delete(all, v)
+							if tag == nil {
+								tag = bo.X
+							}
+							if bo.X == tag {
+								delete(all, v)
+							}
 						}
 					}
 				}
@@ -324,6 +336,7 @@ func (se *scanEngine) findEntryStates() {
 	for _, n := range se.w.scanEntryStates() {
 		se.entry[n] = true
 	}
+	se.w.scanRestStates() // computed before the regions are generated in parallel
 }
 
 // scanEntryStates: state N is a scanner entry state iff the block labelled st_case_N of Lex starts
@@ -533,6 +546,18 @@ func (wk *scanWalker) walk(b *ssa.BasicBlock, st *State, depth int) {
 	}
 	wk.r.nBlocks++
 	nret := len(fc.rets)
+	for _, in := range b.Instrs {
+		switch i := in.(type) {
+		case *ssa.IndexAddr:
+			if sl, ok := i.X.Type().Underlying().(*types.Slice); ok && sl.Elem() == types.Typ[types.Int] {
+				wk.r.usesStack = true
+			}
+		case *ssa.Call:
+			if f := i.Common().StaticCallee(); f != nil && f.Name() == "ret" {
+				wk.r.usesStack = true
+			}
+		}
+	}
 	x.skipAlloc = se.localPtr
 	if isLabelName(b.Comment) && b.Comment != "_out" && b.Comment != "_test_eof" && b.Comment != "_again" {
 		wk.lastLabel = b.Comment
@@ -671,7 +696,7 @@ func (wk *scanWalker) atCut(tc *scanCut, st *State, edge string) {
 	for _, cd := range tc.cands {
 		t := x.evalBool(fc, st, cd.expr, b)
 		o := &Obligation{Name: fmt.Sprintf("%s/inv/%s:%s@%s", x.Prefix, tc.name, cd.src, edge), Class: "inv", Props: se.props, Goal: tImp(st.Guard, t)}
-		if !cd.glob {
+		if !cd.glob || strings.Contains(cd.src, "lex.cs") || strings.Contains(cd.src, "lex.top") {
 			o.Note = "full" // candidates about the machine state need the quantified stack invariant
 		}
 		x.Sc.AddObligation(o)
@@ -951,7 +976,7 @@ func (se *scanEngine) houdini(par, timeoutMs int, verbose bool) []scanRoundStat 
 				if len(only) == 0 {
 					return
 				}
-				st := se.solveRegion(r, only, timeoutMs, sem, func(o *Obligation) bool { return o.Note == "full" })
+				st := se.solveRegion(r, only, timeoutMs, sem, func(o *Obligation) bool { return o.Note == "full" && r.usesStack })
 				for _, e := range r.edges {
 					if only[e.obl] && st[e.obl] != "unsat" {
 						results[i].failed = append(results[i].failed, e)
@@ -1010,7 +1035,7 @@ func (se *scanEngine) finalRound(par, timeoutMs int) (edgeChecks int, obls []*Ob
 			for _, i := range r.safety {
 				only[i] = true
 			}
-			st := se.solveRegion(r, only, timeoutMs, sem, func(o *Obligation) bool { return o.Class != "inv" || o.Note == "full" })
+			st := se.solveRegion(r, only, timeoutMs, sem, func(o *Obligation) bool { return o.Class != "inv" || (o.Note == "full" && r.usesStack) })
 			mu.Lock()
 			edgeChecks += ne
 			for i := range only {
